@@ -403,7 +403,7 @@ func progPlugins() []PluginRsp {
 	return rsp
 }
 
-func adjProg(calls ...JCall) *JProgs  { return &JProgs{Adjust: calls, Updates: [][]JCall{}} }
+func adjProg(calls ...JCall) *JProgs { return &JProgs{Adjust: calls, Updates: [][]JCall{}} }
 func updProgs(us ...[]JCall) *JProgs { return &JProgs{Updates: us} }
 
 // BuilderSystematic: every helper × {alone, after Remove, twice, Remove after Add} ×
